@@ -61,6 +61,7 @@ var c04cMACs = []string{"aa:bb:cc:dd:ee:01", "AA-BB-CC-DD-EE-02", "00:00:00:00:f
 // reason); before /repo 5c9e5b4 IDs() wrote the colon form and the client came
 // back from a restart owning the address 2:0:5e:10::1 instead of the MAC.
 const c04cMAC8 = "02-00-5e-10-00-00-00-01"
+
 var c04cCIDs = []string{"cli1", "Phone", "tv-2"}
 var c04cBadIDs = []string{"", "bad id!"}
 
@@ -86,7 +87,9 @@ var c04cProbes = []c04cProbe{
 
 // ---- round 4: the runtime_sources switches and the DHCP server handed to Init
 
-type c04cDHCP struct{ tbl map[netip.Addr]net.HardwareAddr }
+type c04cDHCP struct {
+	tbl map[netip.Addr]net.HardwareAddr
+}
 
 func (d *c04cDHCP) Leases() []*dhcpsvc.Lease   { return nil }
 func (d *c04cDHCP) HostByIP(netip.Addr) string { return "" }
@@ -227,7 +230,7 @@ type c04cSpec struct {
 	bsIDsKey int // 0 no ids key, 1 "ids: []", 2 listed
 	bsIDs    []string
 	sched    c04cSched
-	noSched  int // section present: 0 schedule key present, 1 key absent, 2 schedule: null
+	noSched  int             // section present: 0 schedule key present, 1 key absent, 2 schedule: null
 	flag     map[string]bool // value written
 	flagKey  map[string]bool // key present
 	cacheKey bool
@@ -584,8 +587,11 @@ type c04cGen struct {
 	stored            []*client.Persistent
 	acfs              []*filtering.Settings
 	panics            []bool // ApplyAdditionalFiltering panicked for the probe
-	saved             []*clientObject
-	coq               string
+	// round 5: Storage.Find / FindByClientIDOrIP / FindLoose for the probe's
+	// address (and ClientID), names found ("" = nobody, "!panic")
+	lookups [][3]string
+	saved   []*clientObject
+	coq     string
 }
 
 var c04cIdxRe = regexp.MustCompile(`at index (\d+)`)
@@ -677,6 +683,27 @@ func c04cLoad(t *testing.T, dataDir string, u *c04cUIDs, objs []*clientObject, e
 		cc.storage.ApplyClientFiltering(q.cid, q.a, &s)
 		g.acfs = append(g.acfs, &s)
 		ac = append(ac, vfOpt("settings", true, c04cSettings(&s)))
+	}
+	for _, q := range c04cProbes {
+		var l [3]string
+		for k, f := range []func() (*client.Persistent, bool){
+			func() (*client.Persistent, bool) { return cc.storage.Find(q.a.String()) },
+			func() (*client.Persistent, bool) { return cc.storage.FindByClientIDOrIP(q.a.String()) },
+			// as clientsContainer.findMultiple calls it for an address of the query log
+			func() (*client.Persistent, bool) { return cc.storage.FindLoose(q.a, q.a.String()) },
+		} {
+			func() {
+				defer func() {
+					if rec := recover(); rec != nil {
+						l[k] = "!panic"
+					}
+				}()
+				if p, ok := f(); ok {
+					l[k] = p.Name
+				}
+			}()
+		}
+		g.lookups = append(g.lookups, l)
 	}
 	// the request path: a real DNSFilter whose ApplyClientFiltering callback
 	// Init has set to the storage; a panic is an observable
@@ -771,11 +798,11 @@ func c04cUIDStr(n int) string { return fmt.Sprintf("0191c5e2-0000-7000-8000-%012
 // ---- one case
 
 type c04cRun struct {
-	env   *c04cEnv // what the next file is loaded under
-	t     *testing.T
-	out   *vfOut
-	known []string
-	toks  map[string]bool
+	env     *c04cEnv // what the next file is loaded under
+	t       *testing.T
+	out     *vfOut
+	known   []string
+	toks    map[string]bool
 	dataDir string
 }
 
@@ -946,6 +973,23 @@ func (h *c04cRun) run(tag string, specs []*c04cSpec) {
 					env, env.leases, q.cid, q.a, got, how, want))
 			}
 		}
+		// round 5: the other lookups of the storage that consult the leases
+		// (query log, statistics, /control/clients/find): Find and
+		// FindByClientIDOrIP on the address string attribute as a request
+		// without ClientID does, and so does FindLoose (which may in addition
+		// find a zone-less match when nobody is found that way); whatever the
+		// switches
+		for i, q := range c04cProbes {
+			wantAddr, howAddr := c04cResolve(specs, env, c04cProbe{"", q.a})
+			for k, fn := range []string{"Find", "FindByClientIDOrIP"} {
+				if got := g1.lookups[i][k]; got != wantAddr {
+					fail("container-find", fmt.Sprintf("under %v with leases %v %s(%q) finds %q; by precedence (%s) it is %q", env, env.leases, fn, q.a.String(), got, howAddr, wantAddr))
+				}
+			}
+			if wantAddr != "" && g1.lookups[i][2] != wantAddr {
+				fail("container-find", fmt.Sprintf("under %v with leases %v FindLoose(%v, %q) finds %q; by precedence (%s) it is %q", env, env.leases, q.a, q.a.String(), g1.lookups[i][2], howAddr, wantAddr))
+			}
+		}
 		var objsAlt []*clientObject
 		if err := yaml.Unmarshal([]byte(doc.String()), &objsAlt); err != nil {
 			t.Fatal(err)
@@ -956,6 +1000,10 @@ func (h *c04cRun) run(tag string, specs []*c04cSpec) {
 			fail("sources-change-load", fmt.Sprintf("the file loads under %v and is refused under %v: %s", env, alt, gAlt.errText))
 		} else {
 			for i, q := range c04cProbes {
+				if g1.lookups[i] != gAlt.lookups[i] {
+					fail("sources-change-lookup", fmt.Sprintf("Find / FindByClientIDOrIP / FindLoose for (%q, %v) with leases %v find %q under %v and %q under %v",
+						q.cid, q.a, env.leases, g1.lookups[i], env, gAlt.lookups[i], alt))
+				}
 				if a, b := c04cSettings(g1.acfs[i]), c04cSettings(gAlt.acfs[i]); a != b {
 					txt := func(st *filtering.Settings) string {
 						return fmt.Sprintf("client %q filtering=%v safesearch=%v safebrowsing=%v parental=%v", st.ClientName,
